@@ -106,7 +106,11 @@ class K4(K3):
                 return 1
             if f in CALLEES:
                 kind, py = CALLEES[f]
-                return kernels.SPEC[py]['ret_rank'] if kind == 'kern' else 1
+                if kind == 'kern':
+                    return kernels.SPEC[py]['ret_rank']
+                if kind == 'bake':
+                    return bakekernels.SPEC2[py]['ret_rank']
+                return 1
         return K3.rank_of(self, e)
 
     def shape_of(self, e):
@@ -121,12 +125,14 @@ class K4(K3):
                 kind = CALLEES[f][0]
                 if kind == 'leg':
                     return [self.shape_of(e.args[1])[0]]
+                if CALLEES[f][1] == '_add_directional':
+                    return [self.shape_of(e.args[0])[0], self.shape_of(e.args[6])[1], self.scalar(e.args[3], getattr(self, '_env', {}))[0]]
                 if kind == 'bake':
                     return [self.shape_of(e.args[0])[0]]
                 if CALLEES[f][1] == '_collect_receiver_energy':
                     return self.shape_of(e.args[0])
                 # the exchange kernels: shape of energy_0_directivity + [n_samples]
-                return self.shape_of(e.args[1]) + [self.scalar(e.args[0], {})[0]]
+                return self.shape_of(e.args[1]) + [self.scalar(e.args[0], getattr(self, '_env', {}))[0]]
         return K3.shape_of(self, e)
 
     def lam(self, e, env):
@@ -207,6 +213,7 @@ class K4(K3):
     def block(self, body, env, ind, tail):
         if not body:
             return tail
+        self._env = env
         st, rest = body[0], body[1:]
         sp = '  ' * ind
         cont = lambda env_=env: self.block(rest, env_, ind, tail)
@@ -250,7 +257,7 @@ class K4(K3):
             # call of a translated kernel giving an array
             if f in CALLEES:
                 r, shp = self.rank_of(v), self.shape_of(v)
-                self.arr[name] = Arr(name, r, shp, CALLEES[f][0] == 'bake')
+                self.arr[name] = Arr(name, r, shp, CALLEES[f][1] == 'get_scattering_data_receiver_index')
                 return sp + 'let %s : %s := %s\n' % (name, self.ftype(name), self.call_text(v, env)) + cont()
         # assignment into a Boolean array
         if isinstance(st, ast.Assign) and len(st.targets) == 1 and isinstance(st.targets[0], ast.Subscript) \
@@ -471,6 +478,292 @@ class K5(K4):
         head = ('def %s [Add α] [Sub α] [Mul α] [Div α] [Neg α] [Zero α] [Cmp α] [ToBin α] [Transc α]\n    %s :\n    %s :=\n'
                 % (SPEC5['lean'], ' '.join(sig), ret))
         return doc + '\n' + head + body + '\n'
+
+
+# ====================================================================== init_source_energy
+SPEC6 = {
+    'lean': 'initSourceEnergy',
+    'arrays': {'source_position': 1, 'self_patch_to_wall_ids': 1, 'self_brdf_incoming_directions': 3,
+               'self_brdf_outgoing_directions': 3, 'self_brdf': 4, 'self_brdf_index': 1, 'self_patches_center': 2,
+               'self_walls_points': 3, 'self_walls_normal': 2, 'self_patches_points': 3, 'self_air_attenuation': 1,
+               'self_frequencies': 1},
+    'int_arrays': ['self_patch_to_wall_ids', 'self_brdf_index'],
+    'nat_scalars': ['self_n_bins'], 'float_scalars': [],
+    'writes': ['self_source', 'self_source_visibility', 'self_energy_init_source', 'self_distance_patches_to_source'],
+    'outputs': ['self_source_visibility', 'self_energy_init_source', 'self_distance_patches_to_source'],
+    'precondition': ['self_brdf_incoming_directions', 'self_air_attenuation'],
+}
+CALLEES['form_factor._source2patch_energy_universal'] = ('leg', '_source2patch_energy_universal')
+CALLEES['_add_directional'] = ('bake', '_add_directional')
+
+
+def _is_instance(e, what):
+    return isinstance(e, ast.Call) and dotted(e.func) == 'isinstance' and len(e.args) == 2 and \
+        dotted(e.args[0]) == 'source' and dotted(e.args[1]) == what
+
+
+class K6(K4):
+    """`DirectionalRadiosityFast.init_source_energy` for an object whose materials and attenuation are installed
+    (the two `if … is None:` blocks that install defaults by calling other methods are outside the translation:
+    PRECONDITION, recorded in the generated docstring).  The source object is represented by what the method
+    reads of it: its position (`source_position`), whether it is a `SoundSource` (`is_sound_source`) and its
+    `get_directivity` as an optional opaque function (`None`: no directivity).  The attributes written come out
+    as a tuple."""
+
+    def __init__(self):
+        self.py = 'DirectionalRadiosityFast.init_source_energy'
+        self.spec = dict(SPEC6, opaque=['source'])
+        fn = copy.deepcopy(func(FAST, 'init_source_energy', cls='DirectionalRadiosityFast'))
+        args = [a.arg for a in fn.args.args]
+        if args != ['self', 'source']:
+            raise TranslationError('%s: parameters are %s' % (self.py, args))
+        self.fn = _Self().visit(fn)
+        self.arr = {}
+        self.scal_nat = set(SPEC6['nat_scalars'])
+        self.scal_float = set()
+        self.bools, self.opt, self.unwrapped, self.junk = set(), set(), set(), []
+        for a, r in SPEC6['arrays'].items():
+            self.arr[a] = Arr(a, r, ['%s_shape_%d' % (a, k) for k in range(r)], a in SPEC6['int_arrays'])
+        self.written = {}
+        used = {n.id for n in ast.walk(self.fn) if isinstance(n, ast.Name) and n.id.startswith('self_')}
+        known = set(SPEC6['arrays']) | self.scal_nat | set(SPEC6['writes']) | {'self_n_walls', 'self_set_wall_brdf', 'self_set_air_attenuation'}   # the last three only inside the default-installing blocks
+        if not used <= known:
+            raise TranslationError('%s: reads/writes of self outside the declared ones: %s' % (self.py, sorted(used - known)))
+
+    # ---- expressions
+    def scalar(self, e, env):
+        if isinstance(e, ast.Name) and e.id == 'is_sound_source':
+            return e.id, 'bool'
+        return K4.scalar(self, e, env)
+
+    def rank_of(self, e):
+        if isinstance(e, ast.Call):
+            f = dotted(e.func)
+            if f == 'np.real' and len(e.args) == 1:
+                return self.rank_of(e.args[0])
+            if f == 'source.get_directivity':
+                return 1
+            if f == 'np.repeat':
+                return self.rank_of(e.args[0])
+            if f == 'np.array' and len(e.args) == 1 and isinstance(e.args[0], ast.Name) and e.args[0].id in self.arr:
+                return self.arr[e.args[0].id].rank
+        if isinstance(e, ast.Subscript) and self._newaxis_view(e) is not None:
+            return 2
+        return K4.rank_of(self, e)
+
+    def shape_of(self, e):
+        if isinstance(e, ast.Call):
+            f = dotted(e.func)
+            if f == 'np.real' and len(e.args) == 1:
+                return self.shape_of(e.args[0])
+            if f == 'source.get_directivity':
+                return [self.shape_of(e.args[0])[0]]
+        return K4.shape_of(self, e)
+
+    def _newaxis_view(self, e):
+        """`v[:, np.newaxis]` / `v[..., np.newaxis]` of a rank-1 array `v`: the name of `v`, else None."""
+        if isinstance(e, ast.Subscript) and isinstance(e.value, ast.Name) and e.value.id in self.arr \
+                and self.arr[e.value.id].rank == 1 and isinstance(e.slice, ast.Tuple) and len(e.slice.elts) == 2 \
+                and dotted(e.slice.elts[1]) == 'np.newaxis':
+            a = e.slice.elts[0]
+            if (isinstance(a, ast.Slice) and a.lower is None and a.upper is None) or \
+                    (isinstance(a, ast.Constant) and a.value is Ellipsis):
+                return e.value.id
+        return None
+
+    def rhs_at(self, e, env, coords):
+        # v[:, np.newaxis] and np.repeat(v[..., np.newaxis], n, axis=-1): the value of v at the first of the two coordinates
+        v = self._newaxis_view(e)
+        if v is None and isinstance(e, ast.Call) and dotted(e.func) == 'np.repeat' and len(e.args) == 2 \
+                and [k.arg for k in e.keywords] == ['axis'] and isinstance(e.keywords[0].value, ast.UnaryOp):
+            v = self._newaxis_view(e.args[0])
+            if v is None:
+                raise TranslationError('%s: %s' % (self.py, src(e)))
+        if v is not None:
+            if len(coords) != 2:
+                raise TranslationError('%s: %s assigned to a region of rank %d' % (self.py, src(e), len(coords)))
+            return '%s (%s)' % (v, coords[0][1])
+        if isinstance(e, ast.Call) and dotted(e.func) == 'source.get_directivity' and len(e.args) == 2 and not e.keywords:
+            if 'source_get_directivity' not in self.unwrapped:
+                raise TranslationError('%s: get_directivity outside `source.directivity is not None`' % self.py)
+            text, shp = self.lam(e.args[0], env)
+            fq, kd = self.scalar(e.args[1], env)
+            return 'source_get_directivity %s (%s) (%s)' % (text, fq, coords[-1][1])
+        if isinstance(e, ast.Call) and dotted(e.func) == 'np.array' and len(e.args) == 1 and isinstance(e.args[0], ast.Name) \
+                and e.args[0].id in self.arr:
+            return K4.rhs_at(self, e.args[0], env, coords)
+        return K4.rhs_at(self, e, env, coords)
+
+    def call_text(self, e, env):
+        f = dotted(e.func)
+        if f == 'form_factor._source2patch_energy_universal':
+            callee = legkernels.K3('_source2patch_energy_universal')
+            if len(e.args) != len(callee.params) or e.keywords:
+                raise TranslationError('%s: call %s' % (self.py, src(e)))
+            parts = ['pt_solution_source']
+            for prm, a in zip(callee.params, e.args):
+                if prm in callee.arr:
+                    if self.rank_of(a) != callee.arr[prm].rank:
+                        raise TranslationError('%s: argument %s of %s' % (self.py, src(a), f))
+                    text, shp = self.lam(a, env)
+                    parts += ['(%s)' % s_ for s_ in shp] + ['(some %s)' % text if prm in callee.opt else text]
+                else:
+                    parts.append('(%s)' % self.scalar(a, env)[0])
+            return '%s %s' % (callee.spec['lean'], ' '.join(parts))
+        return K4.call_text(self, e, env)
+
+    # ---- statements
+    def block(self, body, env, ind, tail):
+        if not body:
+            return tail
+        st, rest = body[0], body[1:]
+        sp = '  ' * ind
+        cont = lambda env_=env: self.block(rest, env_, ind, tail)
+        self._env = env
+        # the source object: position (parameter), kind (parameter)
+        if isinstance(st, ast.If) and _is_instance(st.test, 'pf.Coordinates') and 'source_position' in \
+                [t.id for n in ast.walk(st) if isinstance(n, ast.Assign) for t in n.targets if isinstance(t, ast.Name)]:
+            names = {t.id for n in ast.walk(st) if isinstance(n, ast.Assign) for t in n.targets if isinstance(t, ast.Name)}
+            if names != {'source_position'}:
+                raise TranslationError('%s: the source branch assigns %s' % (self.py, sorted(names)))
+            return cont()
+        if isinstance(st, ast.Assign) and len(st.targets) == 1 and dotted(st.targets[0]) == 'self_source' and dotted(st.value) == 'source':
+            return cont()
+        # default installation: outside the translation (precondition)
+        if isinstance(st, ast.If) and not st.orelse and isinstance(st.test, ast.Compare) and isinstance(st.test.ops[0], ast.Is) \
+                and isinstance(st.test.comparators[0], ast.Constant) and st.test.comparators[0].value is None \
+                and dotted(st.test.left) in SPEC6['precondition']:
+            return cont()
+        if isinstance(st, ast.Assign) and len(st.targets) == 1 and isinstance(st.targets[0], ast.Name):
+            name, v = st.targets[0].id, st.value
+            f = dotted(v.func) if isinstance(v, ast.Call) else None
+            # direction lists as arrays
+            if f == 'np.array' and len(v.args) == 1 and isinstance(v.args[0], ast.ListComp):
+                lc = v.args[0]
+                it = dotted(lc.generators[0].iter) if len(lc.generators) == 1 else None
+                if it in ('self_brdf_incoming_directions', 'self_brdf_outgoing_directions') and isinstance(lc.elt, ast.Attribute) \
+                        and lc.elt.attr == 'cartesian' and dotted(lc.elt.value) == dotted(lc.generators[0].target) and not lc.generators[0].ifs:
+                    self.arr[name] = Arr(name, 3, list(self.arr[it].shape))
+                    return sp + 'let %s : %s := %s\n' % (name, self.ftype(name), it) + cont()
+                raise TranslationError('%s: %s' % (self.py, src(st)))
+            # plain alias of an array (keeps the element type)
+            if isinstance(v, ast.Name) and v.id in self.arr and name not in SPEC6['writes']:
+                self.arr[name] = Arr(name, self.arr[v.id].rank, list(self.arr[v.id].shape), self.arr[v.id].is_int)
+                if v.id in self.bools:
+                    self.bools.add(name)
+                return sp + 'let %s : %s := %s\n' % (name, self.ftype(name), v.id) + cont()
+            # opaque visibility vector
+            if f == 'geometry._check_point2patch_visibility':
+                shp = self.shape_of(v)
+                self.arr[name] = Arr(name, 1, shp)
+                self.bools.add(name)
+                return sp + 'let %s : Nat → Bool := fun a0_ => %s\n' % (name, self.rhs_at(v, env, [(0, 'a0_', shp[0])])) + cont()
+            # attributes written: outputs
+            if name in SPEC6['writes'] and isinstance(v, ast.Name) and v.id in self.arr:
+                self.written[name] = v.id
+                self.arr[name] = Arr(name, self.arr[v.id].rank, list(self.arr[v.id].shape), self.arr[v.id].is_int)
+                if v.id in self.bools:
+                    self.bools.add(name)
+                return sp + 'let %s : %s := %s\n' % (name, self.ftype(name), v.id) + cont()
+        # energy_0, distance_0 = form_factor._source2patch_energy_universal(...)
+        if isinstance(st, ast.Assign) and len(st.targets) == 1 and isinstance(st.targets[0], ast.Tuple) \
+                and isinstance(st.value, ast.Call) and dotted(st.value.func) == 'form_factor._source2patch_energy_universal':
+            names = [dotted(t) for t in st.targets[0].elts]
+            if len(names) != 2:
+                raise TranslationError('%s: %s' % (self.py, src(st)))
+            P_ = self.shape_of(st.value.args[1])[0]
+            nb, _ = self.scalar(st.value.args[5], env)
+            self.arr[names[0]] = Arr(names[0], 2, [P_, nb])
+            self.arr[names[1]] = Arr(names[1], 1, [P_])
+            return (sp + 'let r_ := %s\n' % self.call_text(st.value, env) + sp + 'let %s : Nat → Nat → α := r_.1\n' % names[0] +
+                    sp + 'let %s : Nat → α := r_.2\n' % names[1] + cont())
+        # if isinstance(source, SoundSource): (array updates only)
+        if isinstance(st, ast.If) and _is_instance(st.test, 'sound_object.SoundSource') and not st.orelse:
+            return self.cond_arrays(st.body, [], 'is_sound_source = true', env, ind, cont, scal_ok=True)
+        # if source.directivity is not None: … else: …
+        if isinstance(st, ast.If) and isinstance(st.test, ast.Compare) and isinstance(st.test.ops[0], ast.IsNot) \
+                and dotted(st.test.left) == 'source.directivity':
+            arrays = [a for a in K3.assigned_arrays(self, st.body + st.orelse)]
+            tup = arrays[0] if len(arrays) == 1 else '(%s)' % ', '.join(arrays)
+            saved = dict(self.arr)
+            self.unwrapped.add('source_get_directivity')
+            t1 = self.block(st.body, env, ind + 2, '  ' * (ind + 2) + tup)
+            self.unwrapped.discard('source_get_directivity')
+            for k_ in list(self.arr):
+                if k_ not in saved:
+                    del self.arr[k_]
+            t2 = self.block(st.orelse, env, ind + 2, '  ' * (ind + 2) + tup) if st.orelse else '  ' * (ind + 2) + tup
+            return (sp + 'let %s :=\n' % tup + sp + '  match source_get_directivity with\n' + sp + '  | some source_get_directivity =>\n' + t1 + '\n' +
+                    sp + '  | none =>\n' + t2 + '\n' + cont())
+        # if n_directions == 1: A[...] = …  else: A[...] = …
+        if isinstance(st, ast.If) and isinstance(st.test, ast.Compare) and isinstance(st.test.ops[0], ast.Eq) and st.orelse:
+            c = K.cond(self, st.test, env)
+            return self.cond_arrays(st.body, st.orelse, c, env, ind, cont)
+        # A *= B on whole arrays of the same rank
+        if isinstance(st, ast.AugAssign) and isinstance(st.op, ast.Mult) and isinstance(st.target, ast.Name) \
+                and st.target.id in self.arr and isinstance(st.value, ast.Name) and st.value.id in self.arr \
+                and self.arr[st.value.id].rank == self.arr[st.target.id].rank:
+            A = self.arr[st.target.id]
+            ps = ' '.join(P(k) for k in range(A.rank))
+            return sp + 'let %s : %s := fun %s => %s %s * %s %s\n' % (A.name, self.ftype(A.name), ps, A.name, ps, st.value.id, ps) + cont()
+        # local rank-1 array from an expression involving the opaque directivity
+        if isinstance(st, ast.Assign) and len(st.targets) == 1 and isinstance(st.targets[0], ast.Name) \
+                and isinstance(st.value, ast.Call) and dotted(st.value.func) == 'np.real' and self.rank_of(st.value) == 1:
+            name = st.targets[0].id
+            shp = self.shape_of(st.value)
+            self.arr[name] = Arr(name, 1, shp)
+            return sp + 'let %s : Nat → α := fun a0_ => %s\n' % (name, self.rhs_at(st.value.args[0], env, [(0, 'a0_', shp[0])])) + cont()
+        return K4.block(self, body, env, ind, tail)
+
+    def cond_arrays(self, body, orelse, c, env, ind, cont, scal_ok=False):
+        sp = '  ' * ind
+        arrays = K3.assigned_arrays(self, body + orelse)
+        if not arrays:
+            raise TranslationError('%s: branch without array updates' % self.py)
+        tup = arrays[0] if len(arrays) == 1 else '(%s)' % ', '.join(arrays)
+        saved = dict(self.arr)
+        t1 = self.block(body, env, ind + 2, '  ' * (ind + 2) + tup)
+        for k_ in list(self.arr):
+            if k_ not in saved:
+                del self.arr[k_]
+        t2 = self.block(orelse, env, ind + 2, '  ' * (ind + 2) + tup) if orelse else '  ' * (ind + 2) + tup
+        for k_ in list(self.arr):
+            if k_ not in saved:
+                del self.arr[k_]
+        return (sp + 'let %s :=\n' % tup + sp + '  if %s then\n' % c + t1 + '\n' + sp + '  else\n' + t2 + '\n' + cont())
+
+    def emit(self):
+        outs = SPEC6['outputs']
+        body = self.block(self.fn.body, {}, 1, '  (%s)' % ', '.join(outs))
+        if sorted(self.written) != sorted(outs):
+            raise TranslationError('%s: attributes written are %s' % (self.py, sorted(self.written)))
+        sig = ['(check_point2patch_visibility : (Nat → α) → (Nat → Nat → α) → (Nat → Nat → α) → (Nat → Nat → Nat → α) → Nat → Bool)',
+               '(pt_solution_source : (Nat → α) → (Nat → Nat → α) → α)', '(is_sound_source : Bool)',
+               '(source_get_directivity : Option ((Nat → Nat → α) → α → Nat → α))']
+        for p, r in SPEC6['arrays'].items():
+            sig += ['(%s_shape_%d : Nat)' % (p, k) for k in range(r)]
+            sig.append('(%s : %s)' % (p, ' → '.join(['Nat'] * r + ['Nat' if p in SPEC6['int_arrays'] else 'α'])))
+        sig += ['(%s : Nat)' % p for p in SPEC6['nat_scalars']]
+        ret = '(Nat → Bool) × (Nat → Nat → Nat → α) × (Nat → α)'
+        doc = ('/-- translated from `%s` (%s) for an object with materials and attenuation installed (the two blocks that install '
+               'defaults are outside the translation); the source is its position, its kind and its optional `get_directivity`; the '
+               'result is the tuple of the attributes written: source visibility, initial energy, distances -/' % (self.py, FAST))
+        head = ('def %s [Add α] [Sub α] [Mul α] [Div α] [Neg α] [Zero α] [One α] [Cmp α] [ToBin α] [Transc α] [NatCast α]\n    %s :\n    %s :=\n'
+                % (SPEC6['lean'], ' '.join(sig), ret))
+        return doc + '\n' + head + body + '\n'
+
+
+def generate_source():
+    """Generated/SourceGlue.lean"""
+    out = ['/- GENERATED by harness/translate/gluekernels.py from %s -- do not edit. -/' % FAST,
+           'import Sparrow.Generated.BakeKernels', 'import Sparrow.Generated.LegKernels', 'set_option linter.unusedVariables false',
+           'namespace Sparrow.Generated.SourceGlue', 'open Sparrow Sparrow.Generated.BakeKernels Sparrow.Generated.LegKernels', 'variable {α : Type}', '']
+    t = K6()
+    out.append(t.emit())
+    out.append('end Sparrow.Generated.SourceGlue')
+    facts = {'init_source_energy': {'statements': sum(1 for _ in ast.walk(t.fn) if isinstance(_, ast.stmt)),
+                                    'precondition': 'materials and attenuation installed (default-installing blocks not translated)'}}
+    return '\n'.join(out) + '\n', facts
 
 
 def generate_exchange():
